@@ -73,7 +73,7 @@ PROPS = {
         'tests': [tst('logbuf', 'TestC18Exhaustive', 1, 1, qshards=1, tshards=1),
                   tst('logbuf', 'TestC18Model', 2500, 40000),
                   tst('logbuf', 'TestC18Concurrent', 400, 6000),
-                  tst('logbuf', 'TestC18Websocket', 12, 150)],
+                  tst('logbuf', 'TestC18Websocket', 40, 600)],
         'rule': "four generators: (1) exhaustive: every log length 0..12 x every (offset, limit) in [-2, len+2]^2 against a slice window; (2) rapid state machine over ProcessLogBuffer (size in {0,1,5,50}) with write bursts up to 130 lines, range queries, subscribe(tail)/unsubscribe/close, model = slice of all lines, invariants after every op; (3) a writer goroutine racing GetLogsAndSubscribe at a drawn scheduling offset; (4) websocket followers through api.InitRoutes (reading / disconnecting second follower). Non-trivial = a range query with offset>0, limit>0, offset+limit != len on a non-empty log, a subscription after lines were written, or a hand-over that fell inside the concurrent stream; distinct = distinct case JSON",
         'assumptions': ["the websocket handler is driven through a minimal IProject that only serves the log subscription calls", "a stalled follower is a recorded known finding and is only replayed, not generated"],
     },
@@ -133,7 +133,9 @@ PROPS = {
     },
     'C20': {
         'race': True, 'race_mode': True, 'crash_tolerance': 0.6,
-        'tests': [tst('race', 'TestC20', 25, 400, timeout_q=400, timeout_t=3000)],
+        # many short-lived processes: a shard that dies of a recorded crash loses at most its own 25 cases
+        'tests': [tst('race', 'TestC20', 25, 25, tshards=320, timeout_q=400, timeout_t=600)],
+        'env': {'VERIF_FLUSH_EVERY': '5'},
         'rule': "race-instrumented build (-race); projects of 6 fake processes that keep logging, exiting and being restarted by a churn goroutine; op sets of 2-4 operations drawn from {GetProcessesState, GetProcessState, GetProcessInfo, GetProcessLog(+length), GetLogsAndSubscribe/UnSubscribe, GetProjectState, names, Start, Stop, Restart} and, in half of the cases, {Scale, UpdateProject}; each case releases the op set together for 12 rounds, then shuts the project down. Oracle: race-detector reports keyed by the functions of the two innermost process-compose frames (every function that races on the unchanged tree is a recorded finding; a report involving any other function is a violation), supervisor crashes keyed by message class and site, 20 s watchdog on every round and on the final shutdown. Non-trivial = at least one state-changing operation in a set of >= 2; distinct = distinct case JSON",
         'assumptions': ["the race detector only sees interleavings that occur; absence of reports is weak evidence", "identity of a data race is the racy function, not the pair: the set of functions saturates after about 1 000 cases, the set of pairs does not", "shards that die of a recorded crash lose their remaining cases; the run is inconclusive if more than 60% of the shards die"],
     },
